@@ -268,12 +268,12 @@ def idsDistinct (all : List Hdr) : Bool :=
   all.all (fun a => all.all (fun b => a.id != b.id || a.name == b.name))
 
 /-! non-vacuity: two compatible toy headers, both orders -/
-def toyA : Hdr := ⟨0, "a.h", [(1, 10), (2, 20)], [1], [3], []⟩
-def toyB : Hdr := ⟨1, "b.h", [(2, 20), (4, 40)], [], [5], []⟩
+def toyA : Hdr := ⟨0, "a.h", [(1, 10), (2, 20)], [1], [3], [], []⟩
+def toyB : Hdr := ⟨1, "b.h", [(2, 20), (4, 40)], [], [5], [], []⟩
 example : pairwiseCompat [toyA, toyB] = true ∧ includeAll [toyB, toyA] = some [toyB, toyA]
     ∧ meaningIn [toyB, toyA] 2 = some 20 := by decide
 /-- and an incompatible pair: `c.h` defines name 2 differently -/
-def toyC : Hdr := ⟨2, "c.h", [(2, 21)], [], [], []⟩
+def toyC : Hdr := ⟨2, "c.h", [(2, 21)], [], [], [], []⟩
 example : compat toyA toyC = false ∧ includeAll [toyA, toyC] = none := by decide
 
 end O1722
